@@ -308,11 +308,11 @@ class Analysis:
 
     def constrain(self, node, fa, fb, why=None):
         self.n_constraints += 1
-        res = self.S.equate(fa, fb)
         f = self.f
+        res = self.S.equate(fa, fb)
         if res is None:
-            if self.n_constraints <= 400:
-                pass
+            va = self.S.value(fa)
+            self.chk.instance(self.R, '%s %s: `%s` : %s' % (f.unit.where(node), f.name, f.unit.text(node)[:70], dim_str(va) if va else 'consistent'))
             return
         self.n_bad += 1
         va, vb = self.S.value(fa), self.S.value(fb)
@@ -399,8 +399,7 @@ def run(chk, prog):
             before = (an.n_constraints, an.n_bad)
             an.stmt(f.body)
             nc, nb = an.n_constraints - before[0], an.n_bad - before[1]
-            for _ in range(1):
-                chk.instance(R, '%s: %d dimension constraints, %d inconsistent' % (name, nc, nb), 'satisfied' if nb == 0 else 'undecided')
+            chk.note('%s: %d dimension constraints, %d inconsistent' % (name, nc, nb))
     # report the inferred dimensions of the spline coefficient columns (evidence)
     inferred = {}
     f = prog.funcs.get('cubic_spline_predict')
